@@ -20,6 +20,7 @@ CFG = {
                  "two-template batch; every pool descriptor as a replacement on top of an accepted core, pairs of same-name variants as successive replacements, failing batches that repeat a name (undo order); the rest random (length <= 12, batches of 1..3, autoescape_on interleaved). After a failing add that touched existing or repeated names the observation is taken in a child process, so that a never-validated template left behind by a broken rollback is reported with its history instead of killing the harness. "
                  "File calls read real files written under <out>/files (the harness's working directory) at the moment the engine's loop asks for the entry: with an explicit name (own path) or with the path as the name, and with the failure kinds only files have (no file at the path, a directory, content that is not UTF-8, a path that is not UTF-8) first, in the middle and last in a batch, next to syntax errors and templates that do not finalize; the same key twice in one batch; single files go through add_template_file. Sub-space for file calls: every pool descriptor as one file under both namings, every 2-call history and every 2-file batch over the pool with at least one file call (thorough: every pair in one of the two shapes, alternating; quick: every 61st pair, so that the quick tier keeps its number of Coq shards), failing 3-file batches of same-name variants on top of an accepted core with the failing entry last or in the middle (thorough: all 169 pairs; quick: every 13th), random histories mixing all call kinds (25 / 1000); in a history with file calls the shuffled fresh instance is itself filled through add_template_files. "
                  "Family globhistory: histories over all call kinds including load_from_glob(<dir>/*) on two directories, full_reload, an invalid pattern, reload without a glob; the harness fills the directory before each glob call (good files, files that are not UTF-8, file names that are not UTF-8, sub-directories, syntax errors, sets that do not finalize) and records what the engine's own walk function returns; non-trivial = at least one successful glob call and one failing call. Extra oracles there: the second fresh instance is filled by a glob load of a directory holding exactly the set; after every failing call a copy taken before and a copy taken after the call must behave alike under full_reload() (remembered glob and from_glob marks). "
+                 "Prefix histories (implementation-side oracle only, 500 quick / 4000 thorough): instances configured with two fallback prefixes, a pool in which one short name exists under the exact name and under both prefixes (some byte-identical) as template, parent, include target and component provider; same two oracles after every call. "
                  "Implementation-side oracle on every call: a failing call leaves names / every render / every render_block / "
                  "every get_component_definition and render_component unchanged; after every call the instance is "
                  "observationally equal to a fresh instance given the resulting set in one sorted and one shuffled batch.",
